@@ -20,7 +20,8 @@ search over `@import` lines, used by the drivers). This file proves that it is t
 * `programInOrder_eq`, `front_final_registry`   the final registry is `progRegistry builtins (programInOrder …)`
 * `FinishedAt`, `finishedAt_events`, `front_registry_is_regUpTo`
                                   **the registry file number `i` is read against is `regUpTo builtins prog i`**
-* `finishedAt_complete`           every file of the finish order is finished (`FinishedAt`) in a successful run
+* `finishedAt_complete`, `front_finishes_all`   every file of the finish order is finished (`FinishedAt`) in a successful run
+* `rootOrder_nodup`, `rootOrder_index_unique`   no file is finished twice: the number of a file is unique
 -/
 namespace Pydjinni.Front
 
@@ -1070,6 +1071,123 @@ theorem front_finishes_all (cfg : Cfg) (fs : FS) (builtins : Registry) (root : A
       ⟨Visited.root root, by simp⟩ p he with h1 | h1
     · cases h1
     · exact h1
+
+/-! ### every file is finished once: "file number `i`" determines the file and vice versa -/
+
+/-- what a call of the search adds: the new finished files are pairwise distinct, were not visited before (except the
+    call's own file), and are visited afterwards -/
+def AddsNew (v : List APath) (d : List APath) (file : Option APath) (out : List APath × List APath) : Prop :=
+  ∃ new, out.2 = d ++ new ∧ new.Nodup ∧ (∀ q ∈ new, some q = file ∨ q ∉ v) ∧ (∀ q ∈ new, q ∈ out.1) ∧ (∀ q ∈ v, q ∈ out.1)
+
+theorem AddsNew.refl (v d : List APath) (o : Option APath := none) : AddsNew v d o (v, d) :=
+  ⟨[], by simp, List.nodup_nil, fun _ h => (by cases h), fun _ h => (by cases h), fun _ h => h⟩
+
+theorem finishStep_addsNew (cfg : Cfg) (fs : FS) (rec : APath → APath → List APath × List APath → List APath × List APath)
+    (hrec : ∀ p s v d, p ∈ v → AddsNew v d (some p) (rec p s (v, d))) (spelled : APath) (v d : List APath) (l : LoadAt) :
+    AddsNew v d none (finishStep cfg fs rec spelled (v, d) l) := by
+  unfold finishStep
+  split
+  · exact AddsNew.refl v d
+  · split
+    · rename_i c p hfind
+      split
+      · exact AddsNew.refl v d
+      · rename_i hv
+        have hv' : p ∉ v := by simpa using hv
+        obtain ⟨new, h1, h2, h3, h4, h5⟩ := hrec p c.path (v ++ [p]) d (by simp)
+        refine ⟨new, h1, h2, fun q hq => Or.inr ?_, h4, fun q hq => h5 q (by simp [hq])⟩
+        rcases h3 q hq with h | h
+        · cases h; exact hv'
+        · exact fun hm => h (by simp [hm])
+    · exact AddsNew.refl v d
+
+theorem foldl_finishStep_addsNew (cfg : Cfg) (fs : FS) (rec : APath → APath → List APath × List APath → List APath × List APath)
+    (hrec : ∀ p s v d, p ∈ v → AddsNew v d (some p) (rec p s (v, d))) (spelled : APath) (loads : List LoadAt) (v d : List APath) :
+    AddsNew v d none (loads.foldl (finishStep cfg fs rec spelled) (v, d)) := by
+  induction loads generalizing v d with
+  | nil => exact AddsNew.refl v d
+  | cons l ls ih =>
+    simp only [List.foldl_cons]
+    obtain ⟨n1, h1, h2, h3, h4, h5⟩ := finishStep_addsNew cfg fs rec hrec spelled v d l
+    obtain ⟨n2, k1, k2, k3, k4, k5⟩ := ih (finishStep cfg fs rec spelled (v, d) l).1 (finishStep cfg fs rec spelled (v, d) l).2
+    refine ⟨n1 ++ n2, by rw [k1, h1, List.append_assoc], ?_, ?_, ?_, fun q hq => k5 q (h5 q hq)⟩
+    · rw [List.nodup_append]
+      refine ⟨h2, k2, fun a ha b hb hab => ?_⟩
+      subst hab
+      rcases k3 a hb with h | h
+      · cases h
+      · exact h (h4 a ha)
+    · intro q hq
+      rcases List.mem_append.mp hq with hq | hq
+      · exact h3 q hq
+      · rcases k3 q hq with h | h
+        · cases h
+        · exact Or.inr (fun hm => h (h5 q hm))
+    · intro q hq
+      rcases List.mem_append.mp hq with hq | hq
+      · exact k5 q (h4 q hq)
+      · exact k4 q hq
+
+theorem finishOrder_addsNew (cfg : Cfg) (fs : FS) (fuel : Nat) (file spelled : APath) (v d : List APath) (hin : file ∈ v) :
+    AddsNew v d (some file) (finishOrder cfg fs fuel file spelled (v, d)) := by
+  have hrefl : AddsNew v d (some file) (v, d) := AddsNew.refl v d (some file)
+  induction fuel generalizing file spelled v d with
+  | zero => exact hrefl
+  | succ n ih =>
+    rw [finishOrder_succ]
+    cases hf : fs.get file with
+    | none => exact hrefl
+    | some fc =>
+      cases fc with
+      | idl text =>
+        simp only []
+        cases hp : parseText text with
+        | none => exact hrefl
+        | some f =>
+          simp only []
+          obtain ⟨n1, h1, h2, h3, h4, h5⟩ := foldl_finishStep_addsNew cfg fs (finishOrder cfg fs n)
+            (fun p s v d hp => ih p s v d hp (AddsNew.refl v d (some p)))
+            spelled f.loads v d
+          refine ⟨n1 ++ [file], by simp only [h1, List.append_assoc], ?_, ?_, ?_, h5⟩
+          · rw [List.nodup_append]
+            refine ⟨h2, by simp, fun a ha b hb hab => ?_⟩
+            simp only [List.mem_singleton] at hb
+            subst hab; subst hb
+            rcases h3 a ha with h | h
+            · cases h
+            · exact h hin
+          · intro q hq
+            rcases List.mem_append.mp hq with hq | hq
+            · rcases h3 q hq with h | h
+              · cases h
+              · exact Or.inr h
+            · simp only [List.mem_singleton] at hq; subst hq; exact Or.inl rfl
+          · intro q hq
+            rcases List.mem_append.mp hq with hq | hq
+            · exact h4 q hq
+            · simp only [List.mem_singleton] at hq; subst hq; exact h5 q hin
+      | _ => exact hrefl
+
+/-- No file is finished twice: a file's number in the finish order is unique. -/
+theorem rootOrder_nodup (cfg : Cfg) (fs : FS) (root : APath) : (rootOrder cfg fs root).Nodup := by
+  obtain ⟨new, h1, h2, _⟩ := finishOrder_addsNew cfg fs (fs.files.length + 2) (normPath root) root [normPath root] [] (by simp)
+  unfold rootOrder
+  rw [h1]; simpa using h2
+
+/-- The number `i` in `front_registry_is_regUpTo` is determined by the file. -/
+theorem rootOrder_index_unique (cfg : Cfg) (fs : FS) (root q : APath) (i j : Nat)
+    (hi : (rootOrder cfg fs root)[i]? = some q) (hj : (rootOrder cfg fs root)[j]? = some q) : i = j := by
+  have hlt : i < (rootOrder cfg fs root).length := by
+    rcases Nat.lt_or_ge i (rootOrder cfg fs root).length with h | h
+    · exact h
+    · rw [List.getElem?_eq_none h] at hi; cases hi
+  exact (List.getElem?_inj hlt (rootOrder_nodup cfg fs root)).mp (hi.trans hj.symm)
+
+/-- `NoExternLoads` (no IDL file has an `@extern` line, or there is no valid external type file) discharges the
+    "no `@extern` load" hypothesis of `parseOne_finish_order`, `front_final_registry`, `front_registry_is_regUpTo`. -/
+theorem rootEvents_allFinished (cfg : Cfg) (fs : FS) (root : APath) (hno : NoExternLoads fs) :
+    AllFinished (rootEvents cfg fs root) :=
+  loadOrder_allFinished cfg fs hno _ _ _ _ (fun _ h => by cases h)
 
 /-! ### non-vacuity
 
